@@ -28,6 +28,7 @@ RULE = (
     "nodes encoded with the reference RLP+HP then decode_node / get_node_type / "
     "extract_key must give the class and path back. Non-trivial = input of length >=1; "
     "distinct = canonical JSON of the input."
+    ' Added after the seeded rounds: every nibble sequence is passed as tuple and as list, the terminator helpers are checked, encoded paths / byte strings also as bytearray, bit strings also as list and one-shot iterator, and the four is_*_node predicates must be one-hot for every generated node.'
 )
 LEVEL_TEXT = (
     "Exploration with exhaustively enumerated small domains (marked complete in the "
